@@ -81,3 +81,53 @@ Qed.
 
 Example ex_seal_len : forall k n ad p, length (ex_seal k n ad p) = (16 + length p)%nat.
 Proof. intros. unfold ex_seal. simpl. reflexivity. Qed.
+
+(* A second cipher, shaped like AES-SIV: with an empty plaintext the tag depends
+   on the first half of the key only.  It meets the hypotheses of aead_siv
+   (Proofs/NtsAuthMore.v) and NOT seal_inj: keys that differ in the second half
+   seal the empty plaintext identically (ex2_ctr_half_unused). *)
+Definition keypart (k p : bytes) : bytes := match p with [] => mac_half k | _ :: _ => k end.
+Definition ex2_seal (k n : bytes) (ad : option bytes) (p : bytes) : bytes :=
+  tag (keypart k p) n ad :: repeat 0 15 ++ p.
+Definition ex2_open (k n : bytes) (ad : option bytes) (c : bytes) : option bytes :=
+  match c with
+  | t :: r => if (t =? tag (keypart k (skipn 15 r)) n ad) && bytes_eqb (firstn 15 r) (repeat 0 15) && (15 <=? length r)%nat
+              then Some (skipn 15 r) else None
+  | [] => None
+  end.
+
+Example ex2_open_seal : forall k n ad p, ex2_open k n ad (ex2_seal k n ad p) = Some p.
+Proof.
+  intros. unfold ex2_open, ex2_seal.
+  change (skipn 15 (repeat 0 15 ++ p)) with p. rewrite Z.eqb_refl.
+  change (firstn 15 (repeat 0 15 ++ p)) with (repeat 0 15). rewrite bytes_eqb_refl.
+  rewrite app_length, repeat_length. cbn [Nat.leb plus andb]. reflexivity.
+Qed.
+
+Example ex2_open_only_seal : forall k n ad c p, ex2_open k n ad c = Some p -> c = ex2_seal k n ad p.
+Proof.
+  intros k n ad c p H. unfold ex2_open in H. destruct c as [|t r]; [discriminate|].
+  destruct ((t =? tag (keypart k (skipn 15 r)) n ad) && bytes_eqb (firstn 15 r) (repeat 0 15) && (15 <=? length r)%nat) eqn:E; [|discriminate].
+  apply andb_true_iff in E. destruct E as [E E3]. apply andb_true_iff in E. destruct E as [E1 E2].
+  inversion H; subst p. apply Z.eqb_eq in E1. apply bytes_eqb_true in E2.
+  unfold ex2_seal. rewrite E1. f_equal. rewrite <- E2. symmetry. apply firstn_skipn.
+Qed.
+
+Example ex2_seal_inj_siv : forall k n ad p k' n' ad' p',
+  ex2_seal k n ad p = ex2_seal k' n' ad' p' ->
+  mac_half k = mac_half k' /\ (p <> [] -> k = k') /\ n = n' /\ ad = ad' /\ p = p'.
+Proof.
+  intros k n ad p k' n' ad' p' H. unfold ex2_seal in H. injection H as H1 H2.
+  apply tag_inj in H1. destruct H1 as [A [B C]]. subst p'.
+  destruct p as [|x p]; simpl in A.
+  - repeat split; auto. intro N. exfalso. apply N. reflexivity.
+  - subst k'. repeat split; auto.
+Qed.
+
+Example ex2_seal_len : forall k n ad p, length (ex2_seal k n ad p) = (16 + length p)%nat.
+Proof. intros. unfold ex2_seal. simpl. reflexivity. Qed.
+
+(* two different keys with the same first half seal the empty plaintext alike *)
+Example ex2_ctr_half_unused : forall n ad,
+  [1; 2] <> [1; 3] /\ ex2_seal [1; 2] n ad [] = ex2_seal [1; 3] n ad [].
+Proof. intros. split; [discriminate|reflexivity]. Qed.
